@@ -11,14 +11,20 @@ import (
 
 var errInjected = errors.New("injected fault")
 
+type knownHit struct{ line, viol string }
+
+// occurrences of recorded known findings met (and stepped over) during this run
+var knownHits []knownHit
+
 // faultSession: a Session whose trees are configured with a counting / failing KeyCompare and
 // whose store can fail the n-th Load.
 type faultSession struct {
 	*Session
-	cmpCount int
-	cmpFail  int // index of the comparison that fails, -1 = none
-	aborted  bool
-	lastObs  string
+	cmpCount  int
+	cmpFail   int // index of the comparison that fails, -1 = none
+	aborted   bool
+	lastObs   string
+	positions int
 }
 
 func newFaultSession(c Cfg) *faultSession {
@@ -53,6 +59,56 @@ func (fs *faultSession) Exec(line string) (obs, viol string) {
 		return "skipped", ""
 	}
 	t := strings.Fields(line)
+	if t[0] == "faultall" {
+		// faultall <load|cmp> <op...>: every individual fault position of this operation, in turn,
+		// on the same tree; the run in which the position is beyond the operation's last call is
+		// the fault-free retry, whose result is compared with the model
+		kind := t[1]
+		op := strings.Join(t[2:], " ")
+		slot := fs.slotOf(t[2:])
+		var backup *mast.Mast
+		if m := fs.Trees[slot]; m != nil {
+			if c, err := m.Clone(fs.ctx); err == nil {
+				backup = &c
+			}
+		}
+		for idx := 0; idx < 500; idx++ {
+			before := fs.snapshot(slot)
+			oracleBefore := copyMap(fs.Oracle[slot])
+			o1, hit := fs.runWithFault(kind, idx, op)
+			fs.positions++
+			if !hit {
+				fs.lastObs = o1
+				return o1, ""
+			}
+			if strings.HasPrefix(o1, "panic") {
+				fs.aborted = true
+				fs.lastObs = "panic-abort"
+				return "panic-abort", ""
+			}
+			if !strings.HasPrefix(o1, "err") {
+				fs.lastObs = o1 // fault swallowed, call succeeded: result compared with the model
+				return o1, ""
+			}
+			fs.Oracle[slot] = oracleBefore
+			if after := fs.snapshot(slot); after != before {
+				viol = fs.describeChange(t[2:], kind, idx, op, before, after, oracleBefore)
+				if strings.HasPrefix(viol, "KF-delete-shrink: ") && backup != nil {
+					// the recorded known finding: note it once, put the tree back as it was and go on
+					// with the fault-free call, so that the rest of the history is still exercised
+					knownHits = append(knownHits, knownHit{line, viol})
+					fs.Trees[slot] = backup
+					o2, v2 := fs.Session.Exec(op)
+					fs.lastObs = o2
+					return o2, v2
+				}
+				fs.aborted = true
+				fs.lastObs = "state-changed"
+				return "state-changed", viol
+			}
+		}
+		return "too-many-calls", "operation makes more than 500 fallible calls"
+	}
 	if t[0] != "fault" {
 		obs, viol = fs.Session.Exec(line)
 		fs.lastObs = obs
@@ -63,16 +119,51 @@ func (fs *faultSession) Exec(line string) (obs, viol string) {
 	var idx int
 	fmt.Sscan(t[2], &idx)
 	op := strings.Join(t[3:], " ")
-	var slot int
-	fmt.Sscan(t[4], &slot)
-	if t[3] == "diff" || t[3] == "cur" {
-		fmt.Sscan(t[len(t)-1], &slot) // the tree whose state could change is the last argument's / none
-		if t[3] == "cur" {
-			fmt.Sscan(t[4], &slot)
-		}
-	}
+	slot := fs.slotOf(t[3:])
 	before := fs.snapshot(slot)
 	oracleBefore := copyMap(fs.Oracle[slot])
+	o1, hit := fs.runWithFault(kind, idx, op)
+	fs.positions++
+	if !hit {
+		fs.lastObs = o1
+		return o1, ""
+	}
+	if strings.HasPrefix(o1, "panic") {
+		fs.aborted = true
+		fs.lastObs = "panic-abort"
+		return "panic-abort", ""
+	}
+	if !strings.HasPrefix(o1, "err") {
+		fs.lastObs = o1
+		return o1, ""
+	}
+	fs.Oracle[slot] = oracleBefore
+	if after := fs.snapshot(slot); after != before {
+		viol = fs.describeChange(t[3:], kind, idx, op, before, after, oracleBefore)
+		fs.aborted = true
+		fs.lastObs = "state-changed"
+		return "state-changed", viol
+	}
+	o2, v2 := fs.Session.Exec(op)
+	fs.lastObs = o2
+	if v2 != "" {
+		return o2, "retry after the fault cleared: " + v2
+	}
+	return o2, ""
+}
+
+// slotOf: the tree whose state an operation can change (its first slot argument)
+func (fs *faultSession) slotOf(op []string) int {
+	var slot int
+	if len(op) >= 2 {
+		fmt.Sscan(op[1], &slot)
+	}
+	return slot
+}
+
+// runWithFault runs op with the idx-th call of the given kind failing; hit tells whether the
+// operation got that far.
+func (fs *faultSession) runWithFault(kind string, idx int, op string) (string, bool) {
 	hit := false
 	switch kind {
 	case "load":
@@ -94,49 +185,22 @@ func (fs *faultSession) Exec(line string) (obs, viol string) {
 		hit = fs.cmpCount > idx
 		fs.cmpFail = -1
 	}
-	if !hit {
-		// the operation makes fewer calls than idx: it ran normally
-		fs.lastObs = o1
-		return o1, ""
-	}
-	if strings.HasPrefix(o1, "panic") {
-		fs.aborted = true
-		fs.lastObs = "panic-abort"
-		return "panic-abort", ""
-	}
-	if !strings.HasPrefix(o1, "err") {
-		// the fault was swallowed and the call reported success: C12 says nothing; the result must
-		// then be the normal one (compared with the model below)
-		fs.lastObs = o1
-		return o1, ""
-	}
-	// the call returned an error: nothing may have changed ...
-	fs.Oracle[slot] = oracleBefore
-	after := fs.snapshot(slot)
-	if after != before {
-		viol = fmt.Sprintf("%s returned an error after a failed %s call, and the tree changed: before %s, after %s", op, kind, before, after)
-		if t[3] == "del" && strings.HasPrefix(after, "[") {
-			// recognise the known shape: the entry is gone, the size is one less, only the height reduction failed
-			var k, v uint64
-			fmt.Sscan(t[5], &k)
-			fmt.Sscan(t[6], &v)
-			exp := copyMap(oracleBefore)
-			delete(exp, k)
-			if strings.HasPrefix(after, sortedList(exp)+" size="+fmt.Sprint(len(exp))+" ") && kind == "load" {
-				viol = "KF-delete-shrink: " + viol
-			}
+	return o1, hit
+}
+
+func (fs *faultSession) describeChange(op []string, kind string, idx int, opline, before, after string, oracleBefore map[uint64]uint64) string {
+	viol := fmt.Sprintf("%s returned an error after call %d of kind %s failed, and the tree changed: before %s, after %s", opline, idx, kind, before, after)
+	if op[0] == "del" && strings.HasPrefix(after, "[") && kind == "load" {
+		// recognise the known shape: the entry is gone, the size is one less, only the height reduction failed
+		var k uint64
+		fmt.Sscan(op[2], &k)
+		exp := copyMap(oracleBefore)
+		delete(exp, k)
+		if strings.HasPrefix(after, sortedList(exp)+" size="+fmt.Sprint(len(exp))+" ") {
+			viol = "KF-delete-shrink: " + viol
 		}
-		fs.aborted = true
-		fs.lastObs = "state-changed"
-		return "state-changed", viol
 	}
-	// ... and the same call must now succeed with the normal result
-	o2, v2 := fs.Session.Exec(op)
-	fs.lastObs = o2
-	if v2 != "" {
-		return o2, "retry after the fault cleared: " + v2
-	}
-	return o2, ""
+	return viol
 }
 
 func (fs *faultSession) ModelLine(line string) string {
@@ -146,6 +210,9 @@ func (fs *faultSession) ModelLine(line string) string {
 	}
 	if t[0] == "fault" {
 		return fs.Session.ModelLine(strings.Join(t[3:], " "))
+	}
+	if t[0] == "faultall" {
+		return fs.Session.ModelLine(strings.Join(t[2:], " "))
 	}
 	return fs.Session.ModelLine(line)
 }
@@ -200,7 +267,11 @@ func genFaultCase(r *rand.Rand, cfg Cfg) Case {
 		default:
 			op = "clone 0 1"
 		}
-		ops = append(ops, fmt.Sprintf("fault %s %d %s", kind, idx, op))
+		if r.Intn(4) == 0 {
+			ops = append(ops, fmt.Sprintf("fault %s %d %s", kind, idx, op))
+		} else {
+			ops = append(ops, fmt.Sprintf("faultall %s %s", kind, op))
+		}
 		if r.Intn(3) == 0 {
 			ops = append(ops, "iter 0", "stat 0")
 		}
@@ -220,6 +291,16 @@ func famFaults(f *FamCtx) {
 	f.Gen = func() Case { return genFaultCase(f.Rand, RandCfg(f.Rand)) }
 	n := f.N(200, 8000)
 	for i := 0; i < n; i++ {
-		f.RunTreeCase(f.Gen(), rn, multiLevel)
+		c := f.Gen()
+		before := len(knownHits)
+		f.RunTreeCase(c, rn, multiLevel)
+		if before == 0 && len(knownHits) > 0 {
+			// report the recorded finding once, with the history on which it was first met
+			h := knownHits[0]
+			f.Report.Findings = append(f.Report.Findings, Finding{Family: "faults", Property: "C12", Case: c, Shrunk: c,
+				Outcome: Outcome{Kind: "oracle", Line: h.line, Viol: h.viol}, FailingInput: true,
+				Signature: f.Sig(Outcome{Viol: h.viol})})
+		}
 	}
+	f.Report.Stats = map[string]interface{}{"known_finding_occurrences_stepped_over": len(knownHits)}
 }
